@@ -355,6 +355,25 @@ theorem fixed_local_after_max_display_does_not_parse_back :
   rw [t32] at c d
   exact ⟨hr, c, d⟩
 
+/-- **DateTime<Local>**, both forms.  `Local`'s values print through the generic `DateTime<Tz>` impls
+with a `FixedOffset` as offset, and `FromStr for DateTime<Local>` is the fixed-offset reader followed
+by `with_timezone(&Local)`.  For every value of the round-trip domain whose offset is the one the zone
+prescribes at its instant (`localOff z.utc = z.off` — what every `DateTime<Local>` satisfies; the zone
+itself is a parameter), both texts are the `DateTime<FixedOffset>` texts and read back as the value -/
+theorem roundtrip_DateTime_Local (localOff : NaiveDT → Int) (z : Zoned) (hz : ZInv z) (hm : WholeMinute z.off)
+    (hs : TStrict z.utc.time) (hr : InRangeSecs (wallSecs z)) (hloc : localOff z.utc = z.off) :
+    local_dt_debug z = fixed_debug z ∧ local_dt_display z = fixed_display z ∧
+    ∃ l, NDTInv l ∧ instSecs l = wallSecs z ∧ l.time.frac = z.utc.time.frac ∧
+      local_dt_debug z = wok (naiveText 84 l ++ offsetText z.off) ∧
+      local_from_str localOff (naiveText 84 l ++ offsetText z.off) = .ok (.ok z) ∧
+      local_dt_display z = wok (naiveText 32 l ++ (32 :: offsetText z.off)) ∧
+      local_from_str localOff (naiveText 32 l ++ (32 :: offsetText z.off)) = .ok (.ok z) := by
+  obtain ⟨l, a1, a2, a3, b1, b2, b3, b4⟩ := roundtrip_DateTime_FixedOffset_spec z hz hm hs hr
+  have hback : (⟨z.utc, localOff z.utc⟩ : Zoned) = z := by rw [hloc]
+  refine ⟨rfl, rfl, l, a1, a2, a3, b1, ?_, b3, ?_⟩
+  · unfold local_from_str; rw [b2]; exact congrArg (fun x => Res.ok (Except.ok x)) hback
+  · unfold local_from_str; rw [b4]; exact congrArg (fun x => Res.ok (Except.ok x)) hback
+
 /-- **DateTime<Utc>**, both forms: the text is the UTC reading followed by `Z` (`Debug`), resp. by
 ` UTC` (`Display`), and `FromStr` reads either back as the same value -/
 theorem roundtrip_DateTime_Utc (u : NaiveDT) (hu : NDTInv u) (hs : TStrict u.time) :
